@@ -3,11 +3,19 @@
 worktree (VERIF_REPO, default /tmp/mwt), and records the outcome in mutants/results.json:
   {ID: {mutant name: {"rc": 0|1|2, "caught_by": [violation keys], "expect": "...", "part": "..."}}}
 A mutant that names a part is run against that part only (VERIF_ONLY_PART). usage: mutate_sweep.py [ID ...]"""
-import json, os, re, subprocess, sys, time, glob
+import json, os, re, subprocess, sys, time, glob, fcntl
 VERIF=os.path.dirname(os.path.abspath(__file__))
 REPO=os.environ.get("VERIF_REPO","/tmp/mwt")
 out=os.path.join(VERIF,"mutants","results.json")
 res=json.load(open(out)) if os.path.exists(out) else {}
+BUILD=os.environ.get("VERIF_BUILD","/tmp/mbuild")
+def save(pid,name,entry):
+    """read-modify-write under a lock: several sweeps (on different worktrees / property sets) may run at once"""
+    with open(out+".lock","w") as lk:
+        fcntl.flock(lk,fcntl.LOCK_EX)
+        cur=json.load(open(out)) if os.path.exists(out) else {}
+        cur.setdefault(pid,{})[name]=entry
+        json.dump(cur,open(out+".tmp","w"),indent=1,sort_keys=True); os.replace(out+".tmp",out)
 ids=sys.argv[1:] or sorted(os.path.basename(f)[:-5] for f in glob.glob(os.path.join(VERIF,"mutants","C??.json")))
 checks={i:json.load(open(os.path.join(VERIF,"checks",i+".json"))) for i in ids}
 for pid in ids:
@@ -19,9 +27,8 @@ for pid in ids:
             if new.count(e["find"])!=1: bad=True; break
             new=new.replace(e["find"],e["replace"])
         if bad:
-            res.setdefault(pid,{})[m["name"]]={"rc":None,"error":"find string does not occur exactly once","expect":m.get("expect")}
-            json.dump(res,open(out,"w"),indent=1,sort_keys=True); continue
-        env=dict(os.environ,VERIF_REPO=REPO,VERIF_BUILD="/tmp/mbuild",VERIF_EVIDENCE_DIR="/tmp/verif-mutant-evidence",VERIF_REPLAY_DIR="/tmp/verif-mutant-replays")
+            save(pid,m["name"],{"rc":None,"error":"find string does not occur exactly once","expect":m.get("expect")}); continue
+        env=dict(os.environ,VERIF_REPO=REPO,VERIF_BUILD=BUILD,VERIF_EVIDENCE_DIR=BUILD+"-evidence",VERIF_REPLAY_DIR=BUILD+"-replays")
         if m.get("part") in parts: env["VERIF_ONLY_PART"]=m["part"]
         t0=time.time()
         try:
@@ -30,7 +37,7 @@ for pid in ids:
         finally:
             open(path,"w").write(src)
         keys=sorted({re.match(r"  \[[^\]]*\] ([^:]+(?::[A-Za-z][^: ]*)*)",l).group(1) for l in r.stdout.splitlines() if l.startswith("  [") and re.match(r"  \[[^\]]*\] ([^:]+)",l)})[:6]
-        res.setdefault(pid,{})[m["name"]]={"rc":r.returncode,"caught_by":keys,"expect":m.get("expect"),"part":m.get("part"),"wall_s":round(time.time()-t0,1)}
-        if r.returncode==2: res[pid][m["name"]]["stderr"]=r.stderr[-600:]
-        json.dump(res,open(out,"w"),indent=1,sort_keys=True)
+        entry={"rc":r.returncode,"caught_by":keys,"expect":m.get("expect"),"part":m.get("part"),"wall_s":round(time.time()-t0,1)}
+        if r.returncode==2: entry["stderr"]=r.stderr[-600:]
+        save(pid,m["name"],entry)
         print(pid,m["name"],r.returncode,keys[:2],flush=True)
